@@ -10,7 +10,7 @@ import tokenize
 import sympy as sp
 
 from ptstat import AnalysisError
-from ptstat.symval import SymObj, Phi, SymRaise, Builtin, GenVal
+from ptstat.symval import SymObj, Phi, SymRaise, Builtin, GenVal, TextFile
 from ptstat.world import World
 from .common import eq, fsite, raises, folder, _s
 from .C06 import fr, close
@@ -343,7 +343,7 @@ def _cromer(ctx, F):
     w = fresh(ctx)
     I = w.I
     I.stubs["core.get_data_path"] = lambda I_, a, k: "/data"
-    I.builtins["open"] = Builtin("open", lambda *a, **k: GenVal(list(F0)))
+    I.builtins["open"] = Builtin("open", lambda *a, **k: TextFile(list(F0), "f0_WaasKirf.dat"))
     rr = raises(lambda: I.call(I.global_name("cromermann", "_update_cmformulas"), [], {}))
     if rr:
         ctx.fail("R5", "_update_cmformulas reads well-formed DABAX records", f"raises {rr}", site)
